@@ -189,3 +189,33 @@ Example c31_example_mixed :
   run p init_state ops = [[]; []; []; [[]]; [[4; 5; 6]]].
 Proof. exact example_mixed_facts. Qed.
 Print Assumptions c31_example_mixed.
+
+(* rotation: ChunkCacheVolume.Reset (doReset truncates .dat AND .idx, removes the
+   leveldb; the reload regenerates the map from the emptied .idx) leaves nothing of
+   the volume's old contents: a reset volume answers for no key ... *)
+Theorem c31_reset_forgets : forall s k, seg_get (reset_seg s) k = None.
+Proof. exact reset_forgets. Qed.
+Print Assumptions c31_reset_forgets.
+
+(* ... and the volume a rotation moved to the front answers for the key just
+   written and for no other key; its size is that of the one new needle *)
+Theorem c31_rotation_front_only_new : forall limit front rest key d k,
+  (limit <? sg_size front + blen d) = true -> k <> key ->
+  match layer_set limit (front :: rest) key d with
+  | s :: _ => seg_get s k = None /\ seg_get s key = Some d /\ sg_size s = pad8 (blen d)
+  | [] => False
+  end.
+Proof. exact rotation_front_only_new. Qed.
+Print Assumptions c31_rotation_front_only_new.
+
+(* non-vacuity of the rotation path: a full rotation cycle of the middle tier and
+   the refill of the reset volume, every id ever stored looked up after every
+   store (deterministic case "fixed-rotation" of the harness) *)
+Example c31_rotation_witness :
+  keys_unique (rot_ops 10) = true /\ hist_ok (rot_ops 10) = true /\
+  transparent_from [] (rot_ops 10) (run rot_params init_state (rot_ops 10)) = true /\
+  skipn 55 (run rot_params init_state (rot_ops 10)) =
+    [[[]]; [[]]; [[]]; [[]]; [rot_data 5]; [rot_data 6];
+     [rot_data 7]; [rot_data 8]; [rot_data 9]; [rot_data 10]].
+Proof. exact rotation_witness_facts. Qed.
+Print Assumptions c31_rotation_witness.
